@@ -135,10 +135,18 @@ def scen_record(cfg):
     return scenario
 
 
+class _C:
+    """connection stub: what rex reads of a Connection when filtering"""
+
+    def __init__(self, producer, input_name):
+        self.output_node, self.input_name = _N(producer), input_name
+
+
 class _N:
-    def __init__(self, name, inputs=()):
+    def __init__(self, name, inputs=(), shadow=False):
         self.name, self.order, self.color = name, None, "gray"
-        self.inputs = {i: None for i in inputs}
+        # BaseNode.inputs is keyed by the *input* name, which equals the producer's name unless the connection was given a custom one
+        self.inputs = {(f"in_{i}" if shadow else i): _C(i, f"in_{i}" if shadow else i) for i in inputs}
 
 
 def scen_networkx(cfg):
@@ -165,7 +173,7 @@ def scen_networkx(cfg):
             for idx in range(lb):
                 V.assume(SymBool(z3.Implies(zb(e.seq_in[k] == idx), zb(g.vertices["b"].seq[idx] == idx))))
         nodes = {"a": _N("a"), "b": _N("b", ["a"])}
-        G = utils.to_networkx_graph(g, nodes=nodes)
+        G = utils.to_networkx_graph(g, nodes=nodes) if not cfg.get("default_nodes") else utils.to_networkx_graph(g)  # nodes is an optional argument
         # what the engine has decided on this path
         exists = {}
         ok = []
@@ -220,7 +228,7 @@ def scen_filter(cfg):
         sel = cfg["subset"]
         # the node objects know only their own inputs (possibly fewer than the graph has edges)
         node_inputs = {"a": [], "b": ["a"], "c": ["b", "a"] if cfg["full_inputs"] else ["b"]}
-        nodes = {n: _N(n, node_inputs[n]) for n in sel}
+        nodes = {n: _N(n, node_inputs[n], shadow=cfg.get("shadow", False)) for n in sel}
         out = g.filter(nodes, filter_edges=cfg["flag"])
         if cfg["flag"]:
             want = {(n1, n2) for n2 in sel for n1 in node_inputs[n2] if n1 in sel and (n1, n2) in g.edges}
@@ -288,11 +296,16 @@ def configs(tier):
         out.append(dict(scen="record", lens=ls))
     for l in ([(2, 2, 2), (3, 2, 2)] + ([(3, 3, 3)] if th else [])):
         out.append(dict(scen="networkx", lens=l))
+    out.append(dict(scen="networkx", lens=(2, 2, 2), default_nodes=True))  # nodes=None is the documented default
     for r in range(0, 4):
         for sub in itertools.combinations(["a", "b", "c"], r):
             for flag in (True, False):
                 for full in ((True, False) if "c" in sub else (True,)):
                     out.append(dict(scen="filter", subset=list(sub), flag=flag, full_inputs=full))
+    # connections registered under custom input names (BaseNode.inputs is then not keyed by the producers' names)
+    for sub in (["a", "b"], ["a", "b", "c"], ["b", "c"], ["a", "c"]):
+        for flag in (True, False):
+            out.append(dict(scen="filter", subset=sub, flag=flag, full_inputs=True, shadow=True))
     return out
 
 
